@@ -312,7 +312,8 @@ fn main() {
       Err(_) => break,
     };
     let parts: Vec<&str> = line.split('\t').collect();
-    START_CPU_US.store(cpu_us().unwrap_or(0) as u64, Ordering::SeqCst);
+    // u64::MAX = unknown: the watchdog then relies on the wall-clock backstop alone
+    START_CPU_US.store(cpu_us().map(|c| c as u64).unwrap_or(u64::MAX), Ordering::SeqCst);
     DEADLINE_MS.store(epoch.elapsed().as_millis() as u64 + 8 * case_ms + 5000, Ordering::SeqCst);
     let t0 = Instant::now();
     let c0 = thread_cpu_us();
